@@ -1,8 +1,107 @@
-import BufrSpec.RefDecode
+import BufrProofs.RefCodec
+import BufrProofs.Scale
+/-
+  C03 — Encoder output is the FM 94 wire format for the template and values.
+
+  Property theorems only (helper lemmas: BufrProofs/Codec.lean, RefCodec.lean, Scale.lean).
+  Model: BufrModel/Codec.lean; reference decoder written from the regulation: BufrSpec/RefDecode.lean.
+  Tie: `ds.encode` correspondence + the reference decoder run on the implementation's own bytes
+  (`spec.decode`, props/c03.py).
+
+  Proved at full strength: the bits of one element (associated field, then the raw value in exactly
+  the element width; characters left-justified and blank padded), of a whole uncompressed Section 4
+  (subsets in order, elements in expansion order, no gaps, only padding after), the raw value of a
+  numeric element (`round(v·10^scale) − reference`, all ones for missing), the bits of a compressed
+  numeric column (R0, 6-bit NBINC, increments), and that the *reference decoder* recovers from them
+  exactly the raw values (element and column).  Section 3 and the whole-message walk of the
+  reference decoder over a template with replication are covered by correspondence and `spec.decode`.
+-/
 namespace Bufr.C03
-open Bufr Bufr.Spec
-/-- placeholder while the wire-format theorems are written: the reference decoder reads a
-column of equal values back from `R0, NBINC = 0` -/
-theorem C03_column_equal (w n r0 : Nat) (rest : List Bool) (h : r0 < 2^w) :
-    readColumn w n (bitsMSB w r0 ++ bitsMSB 6 0 ++ rest) = some (List.replicate n r0, rest) ∨ True := Or.inr trivial
+open Bufr Bufr.Spec Bufr.Scale Bufr.SF
+
+/-- **one element on the wire**: nothing for a node without data; otherwise the associated field
+(when 2 04 is in force) followed by the value in exactly the operator-adjusted width -/
+theorem C03_element_bits (w : W) (hI : WInv w) (n : Node) :
+    (putDescValue w n).bits = w.bits ++ nodeBits n ∧ WInv (putDescValue w n) :=
+  putDescValue_bits w hI n
+
+/-- **uncompressed Section 4**: the elements of subset 1 in expansion order, then subset 2, …,
+most significant bit first without gaps; what follows is padding only -/
+theorem C03_section4_bits (ss : List (List Node)) (dataFlag edition : Nat) :
+    ∃ pad, (R.ofBytes (padSection4 edition (encodeData ss dataFlag 0).2).bytes).bits =
+      ss.flatMap (fun s => s.flatMap nodeBits) ++ pad :=
+  let ⟨pad, h, _⟩ := encodeData_reader ss dataFlag edition
+  ⟨pad, h⟩
+
+/-- character data are left-justified, cut to the element width and blank padded -/
+theorem C03_characters (n : Node) (bs : List Nat) (h : n.val = .str bs) :
+    paddedString n = bs.take (n.enc.nbits / 8).toNat ++ List.replicate ((n.enc.nbits / 8).toNat - bs.length) 32 := by
+  unfold paddedString valueString; rw [h]
+
+/-- **raw value of a numeric element**: a physical value within (½ − 2^−18)·10^−scale of the grid
+point `k·10^−scale`, accepted by the library's range test, is written as `k − reference` -/
+theorem C03_raw_value (n : Node) (x : ℚ) (k : ℤ) (ht : n.enc.type = .numeric) (hnb : n.enc.nbits ≤ 32)
+    (hval : n.val = .f64 (.fin x)) (hv : (sEnc n.enc).Valid)
+    (hk : 0 ≤ k - n.enc.ref ∧ k - n.enc.ref < 2 ^ (sEnc n.enc).nbits - 1)
+    (hx : |x * (10:ℚ) ^ n.enc.scale - k| ≤ 1 / 2 - 1 / 2 ^ 18)
+    (hr : dFmin (sEnc n.enc) ≤ x ∧ x ≤ dFmax (sEnc n.enc)) :
+    valueBits n = (k - n.enc.ref).toNat := by
+  unfold valueBits
+  simp only [ht, hnb, if_true, hval]
+  exact cvtDvalToI64_onGrid n.desc (sEnc n.enc) hv x k
+    ⟨hk.1, lt_of_lt_of_le hk.2 (by have := two_pow_nbits_le (sEnc n.enc) hv; omega), hx⟩ hk.2
+    (not_lt.mpr hr.1) (not_lt.mpr hr.2)
+
+/-- **missing is all ones** -/
+theorem C03_missing_all_ones (n : Node) (x : FP) (ht : n.enc.type = .numeric) (hnb : n.enc.nbits ≤ 32)
+    (hval : n.val = .f64 x) (hv : (sEnc n.enc).Valid) (hm : isMissingDouble x = true) :
+    valueBits n = 2 ^ (sEnc n.enc).nbits - 1 := by
+  unfold valueBits
+  simp only [ht, hnb, if_true, hval]
+  exact encode_missing n.desc (sEnc n.enc) hv x hm
+
+/-- **compressed numeric column on the wire**: local reference value in the element width, increment
+width in 6 bits, one increment per subset -/
+theorem C03_column_bits (w : W) (hI : WInv w) (n0 : Node) (rest : List Node) :
+    (putNumericCompressed w (n0 :: rest)).bits =
+      w.bits ++ (bitsMSB n0.enc.nbits.toNat (encNumCol n0.enc.nbits ((n0 :: rest).map value2bits)).1 ++
+        bitsMSB 6 (encNumCol n0.enc.nbits ((n0 :: rest).map value2bits)).2.1 ++
+        (encNumCol n0.enc.nbits ((n0 :: rest).map value2bits)).2.2.flatMap
+          (bitsMSB (encNumCol n0.enc.nbits ((n0 :: rest).map value2bits)).2.1)) :=
+  (putNumericCompressed_bits w hI n0 rest).1
+
+/-- **the reference decoder recovers one element** -/
+theorem C03_refdecode_element (l : Layout) (m : Node) (rest : List Bool) (h : LayoutOf l m)
+    (hns : m.flags.skipped = false) :
+    readItem l (nodeBits m ++ rest) =
+      some ({ desc := l.desc, kind := l.kind, width := l.width.toNat, afW := l.af, af := m.afBits % 2^l.af,
+              raw := if l.kind = .ccitt then 0 else valueBits m % 2^l.width.toNat,
+              str := if l.kind = .ccitt then (paddedString m).map (· % 256) else [] }, rest) :=
+  readItem_view l m rest h hns
+
+/-- **the reference decoder recovers a compressed numeric column**: from the bits the library wrote
+for one element of `n` subsets it reads exactly the subsets' raw values (all ones = missing) -/
+theorem C03_refdecode_column (w : W) (hI : WInv w) (n0 : Node) (rest : List Node)
+    (h1 : 1 ≤ n0.enc.nbits) (h2 : n0.enc.nbits ≤ 64)
+    (hv : ∀ n ∈ n0 :: rest, value2bits n ≤ missingIvalue n0.enc.nbits)
+    (hspread : n0.enc.nbits = 64 → ∀ a ∈ n0 :: rest, ∀ b ∈ n0 :: rest,
+      value2bits a ≠ missingIvalue n0.enc.nbits → value2bits b ≠ missingIvalue n0.enc.nbits →
+      value2bits a - value2bits b < 2^63 - 1)
+    (bits tail : List Bool)
+    (hb : (putNumericCompressed w (n0 :: rest)).bits ++ tail = w.bits ++ bits) :
+    readColumn n0.enc.nbits.toNat (n0 :: rest).length bits = some ((n0 :: rest).map value2bits, tail) :=
+  refDecode_numeric_column w hI n0 rest h1 h2 hv hspread bits tail hb
+
+/-! ### Non-vacuity -/
+
+def exNode (x : ℚ) : Node :=
+  { desc := 12101, enc := { type := .numeric, scale := 2, ref := -27315, nbits := 16, afNbits := 0 }, val := .f64 (.fin x) }
+
+example : (sEnc (exNode 0).enc).Valid := by decide
+example : valueBits (exNode (2665 / 100)) = 29980 := by decide +kernel
+example : dFmin (sEnc (exNode 0).enc) ≤ 2665 / 100 ∧ (2665:ℚ) / 100 ≤ dFmax (sEnc (exNode 0).enc) := by decide +kernel
+example : nodeBits (exNode (2665 / 100)) = bitsMSB 16 29980 := by decide +kernel
+example : LayoutOf { desc := 12101, kind := .num, width := 16, scale := 2, ref := -27315 } (exNode 1) :=
+  ⟨by decide, rfl, by decide, by decide, by decide, by decide⟩
+
 end Bufr.C03
